@@ -27,6 +27,9 @@ type DisputeMonitor struct {
 	disputes map[uint64]disputetypes.Dispute
 	votes    map[uint64]disputetypes.Vote
 	voted    map[uint64]map[string]bool
+	// selVoted[id][reporter] = stake (as of the dispute's block) of that reporter's selectors, other than the reporter
+	// itself, that have voted in this round, keyed by selector address
+	selVoted map[uint64]map[string]map[string]math.Int
 	executed map[uint64]int
 	funded   map[string]int // hash -> number of funding completions seen
 
@@ -47,7 +50,7 @@ type DisputeMonitor struct {
 
 func NewDisputeMonitor(st *Stats) *DisputeMonitor {
 	return &DisputeMonitor{st: st, status: map[uint64]disputetypes.DisputeStatus{}, disputes: map[uint64]disputetypes.Dispute{}, votes: map[uint64]disputetypes.Vote{},
-		voted: map[uint64]map[string]bool{}, executed: map[uint64]int{}, funded: map[string]int{}, in: map[string]math.Int{}, out: map[string]math.Int{},
+		voted: map[uint64]map[string]bool{}, selVoted: map[uint64]map[string]map[string]math.Int{}, executed: map[uint64]int{}, funded: map[string]int{}, in: map[string]math.Int{}, out: map[string]math.Int{},
 		failedPaid: map[string]bool{}, refundClaims: map[string]bool{}, rewardClaims: map[string]bool{}, bal: math.ZeroInt(), group: map[string]string{}, fromBondHash: map[string]bool{}}
 }
 func (m *DisputeMonitor) Name() string { return "dispute" }
@@ -402,6 +405,14 @@ func (m *DisputeMonitor) AfterTx(c *Chain, ctx sdk.Context, tx sdk.Tx, ok bool) 
 				m.refundClaims[key] = true
 				addTo(m.out, string(d.HashId), dBal.Neg())
 				m.divisions += 2
+				// "sub-unit dust that is accumulated and burned": whole units are burned in the same call, so what
+				// stays accumulated is below one unit (the store counts millionths of a unit)
+				if dust, err := c.App.DisputeKeeper.Dust.Get(ctx); err == nil {
+					m.st.Count("c13.dust.evals")
+					if dust.GTE(math.NewInt(1_000_000)) || dust.IsNegative() {
+						c.Violate("C13", "dispute", "accumulated-dust-not-sub-unit-after-refund", map[string]interface{}{"id": x.Id, "dust_millionths": dust.String()})
+					}
+				}
 				if d.DisputeStatus == disputetypes.Failed {
 					m.failedPaid[string(d.HashId)] = true
 				}
@@ -575,6 +586,58 @@ func (m *DisputeMonitor) onVote(c *Chain, ctx sdk.Context, x *disputetypes.MsgVo
 		if !gotUser.Equal(wantUser) {
 			c.Violate("C12", "dispute", "user-power-not-tips-at-dispute-block", map[string]interface{}{"id": x.Id, "recorded": gotUser.String(), "tips": wantUser.String()})
 		}
+		m.reporterStakeOnce(c, ctx, x.Id, pd.BlockNumber, addr, v)
+	}
+}
+
+// reporterStakeOnce: "a selector's own vote is removed from its reporter's weight so that no reporting stake counts
+// twice": a voting selector carries its own stake (as of the dispute's block); a voting reporter carries the stake
+// selected to it minus the stake of every one of its selectors that has voted, whichever voted first.
+func (m *DisputeMonitor) reporterStakeOnce(c *Chain, ctx sdk.Context, id, block uint64, voter sdk.AccAddress, v disputetypes.Voter) {
+	sel, err := c.App.ReporterKeeper.Selectors.Get(ctx, voter.Bytes())
+	if err != nil {
+		if !v.ReporterPower.IsZero() {
+			c.Violate("C12", "dispute", "reporter-power-for-voter-without-selection", map[string]interface{}{"id": id, "recorded": v.ReporterPower.String()})
+		}
+		return
+	}
+	rep := sdk.AccAddress(sel.Reporter)
+	if m.selVoted[id] == nil {
+		m.selVoted[id] = map[string]map[string]math.Int{}
+	}
+	if m.selVoted[id][string(rep)] == nil {
+		m.selVoted[id][string(rep)] = map[string]math.Int{}
+	}
+	own := m.selVoted[id][string(rep)]
+	if !rep.Equals(voter) {
+		t, err := c.App.ReporterKeeper.GetDelegatorTokensAtBlock(ctx, voter.Bytes(), block)
+		if err != nil {
+			t = math.ZeroInt()
+		}
+		own[string(voter)] = t
+		if !v.ReporterPower.Equal(t) {
+			c.Violate("C12", "dispute", "selector-vote-not-its-own-stake-at-dispute-block", map[string]interface{}{"id": id, "recorded": v.ReporterPower.String(), "stake": t.String()})
+		}
+	}
+	// the reporter's record, if it has voted (now or earlier)
+	rv, err := c.App.DisputeKeeper.Voter.Get(ctx, collections.Join(id, rep.Bytes()))
+	if err != nil {
+		m.st.Bucket("c12|stake-once|reporter-voted=false|selectors-voted=%d", minInt(len(own), 3))
+		return
+	}
+	total, err := c.App.ReporterKeeper.GetReporterTokensAtBlock(ctx, rep.Bytes(), block)
+	if err != nil {
+		return
+	}
+	want := total
+	for _, t := range own {
+		want = want.Sub(t)
+	}
+	m.st.Count("c12.stake-once.evals")
+	m.st.Bucket("c12|stake-once|reporter-voted=true|reporter-last=%v|selectors-voted=%d", rep.Equals(voter), minInt(len(own), 3))
+	if !rv.ReporterPower.Equal(want) {
+		c.Violate("C12", "dispute", fmt.Sprintf("reporter-weight-not-stake-minus-voted-selectors:selectors-voted=%d:reporter-voted-last=%v", minInt(len(own), 3), rep.Equals(voter)),
+			map[string]interface{}{"id": id, "reporter": rep.String(), "recorded": rv.ReporterPower.String(), "stake_at_dispute_block": total.String(), "want": want.String(), "selectors_voted": len(own)})
 	}
 }
 
